@@ -55,6 +55,11 @@ impl TryFrom<&[u8]> for VarSizeInt {
         let mut val = 0u32;
 
         for (idx, &byte) in bytes.iter().enumerate() {
+            // A Variable Byte Integer is at most four bytes long.
+            if idx >= 4 {
+                return Err(InvalidEncoding.into());
+            }
+
             val += (byte as u32 & 127) * mult;
 
             if mult as usize > Self::MAX {
